@@ -22,6 +22,13 @@ def run(tier):
     st["single"] = lc.validate(ck, "C02", lc.specs_single(ck.seed + 21, per_op), "catalogue operators alone")
     st["depth2"] = lc.validate(ck, "C02", lc.specs_depth(ck.seed + 22, nd, 2), "depth 2")
     st["depth3"] = lc.validate(ck, "C02", lc.specs_depth(ck.seed + 23, nd, 3), "depth 3")
+    # early termination downstream of every operator (take/first/take_while/element_at/take_until/...)
+    st["early"] = lc.validate(ck, "C02", lc.specs_depth(ck.seed + 24, nd, 2, early=True), "depth 2, early-terminating consumer")
+    st["groups_early"] = lc.validate(ck, "C02", lc.specs_groups_early(ck.seed + 27, 3 if tier == "quick" else 25),
+                                     "window/group operators under an early-terminating consumer, windows subscribed or ignored")
+    # the subscriber's own terminal callback raises: it has received its terminal notification, the sources must still be released
+    st["sink_raises"] = lc.validate(ck, "C02", lc.specs_single(ck.seed + 25, max(3, per_op // 2), sink_raise=True) +
+                                    lc.specs_depth(ck.seed + 26, nd // 2, 2, sink_raise=True), "terminal callback of the subscriber raises")
     ck.note("pipeline_runs", st)
     ck.rule = (f"each catalogue operator x {per_op} seeded scenarios (hot/cold source, C/E/never, other/inner/trigger sources), {nd} depth-2 and "
                f"{nd} depth-3 pipelines; non-trivial = validated traces (each contains at least one source subscription)")
